@@ -8,7 +8,6 @@ import (
 	"strings"
 
 	"go.dedis.ch/kyber/v4"
-	"go.dedis.ch/kyber/v4/group/p256"
 
 	"verif/internal/gen"
 	"verif/internal/groups"
@@ -71,7 +70,7 @@ func c17(r *mon.R) {
 	var jobs []c17Job
 	pickRounds, embedRounds, dataRounds := r.N(2, 24), r.N(2, 24), r.N(1, 12)
 	for _, g := range gs {
-		slow := g.Kind == "GT"
+		slow := g.Kind == "GT" || g.Name == "residue-3072"
 		if g.CanPick {
 			n := pickRounds
 			if slow {
@@ -513,11 +512,11 @@ func c17Craft(g *groups.G, lv int, rng *gen.Rng) []byte {
 				return ref.BN256G1.Bytes(p)
 			}
 		}
-	case g.Name == "qr512":
+	case c17IsResidue(g):
 		if lv > 0xffff {
 			return nil
 		}
-		grp := g.Grp.(*p256.QrSuite)
+		grp := c17PQ(g)
 		n := g.Grp.PointLen()
 		for t := 0; t < 200; t++ {
 			v := rng.Bytes(n)
@@ -537,7 +536,7 @@ func (c *c17Ctx) dataJob(w int, g *groups.G, round int) {
 	rng := gen.New(r.Seed, "C17data/"+g.Name, round)
 	L := g.Point().EmbedLen()
 	maxLv := 255
-	if g.Name == "qr512" {
+	if c17IsResidue(g) {
 		maxLv = 0xffff
 	}
 	if g.Name == "bn256.G1" {
